@@ -1,6 +1,11 @@
 #!/bin/sh
 # Build the static Coq library (full .vo build) from files on disk. Offline.
+# Every ./check rebuilds the targets it depends on itself (and fails if they do not build),
+# so a file that does not compile is reported by the check that needs it, not hidden here.
 cd "$(dirname "$0")/coq" || exit 2
 mkdir -p ../build
 coq_makefile -f _CoqProject -o Makefile || exit 2
-exec make -j16
+make -k -j16
+rc=$?
+[ $rc -ne 0 ] && echo "setup: some library files did not build (rc=$rc); the checks depending on them will report it"
+exit 0
